@@ -384,7 +384,8 @@ for nm in ("to_end", "remove"):
     H("v5_splice_" + nm, "__verif::v1", "V5", quick=["C13"] if nm in ("to_end",) else [], thorough=["C13"], timeout=1500, cost=60, stubs=STUB_CUT + STUB_LOOPS, inst="Vec<u8>",
       funcs=["collections::Vec::splice", "<Splice as Drop>::drop", "Drain::fill", "Drain::move_tail"],
       bounds={"vector": "4 elements, capacity 12", "range and replacement length": "concrete per instance (%s)" % nm, "values": "symbolic"})
-for nm, q in (("from_iter_exact", 1), ("from_iter_filter", 0), ("vec_macro_list", 0), ("vec_macro_repeat", 1), ("drain_filter", 1)):
+# (v6_from_iter_filter - inexact size hint, generic Extend path - ran past 17 min: not registered)
+for nm, q in (("from_iter_exact", 1), ("vec_macro_list", 0), ("vec_macro_repeat", 1), ("drain_filter", 1)):
     H("v6_" + nm, "__verif::v1", "V6", quick=["C13"] if q else [], thorough=["C13"], timeout=1500, cost=40, stubs=STUB_CUT + STUB_LOOPS, inst="Vec<u8>",
       funcs=["collections::Vec::from_iter_in", "vec! (list and repeat forms)", "collections::Vec::drain_filter", "<DrainFilter as Drop>::drop"],
       bounds={"length": "3 (4 for the repeat form), concrete", "values": "symbolic u8", "predicate": "membership in a symbolic set", "scenario": nm})
